@@ -1,13 +1,67 @@
-"""Per-property configuration of ./check: which harness suites and Lean module decide a property."""
+"""Per-property configuration of ./check: which harness suites (generator groups) and Lean modules
+(lean/I2P/Props/<id>*.lean) decide a property."""
 
 COMMON_ASSUME = [
     "Go compiler/runtime and the standard library behave as documented",
     "logging side effects are ignored",
 ]
+PARSE_GROUPS = "DATA,MAP,KAC,STRUCT"
+MODEL_FILES = "model files: lean/I2P/Data.lean, Mapping.lean, Kac.lean, Structs.lean"
 
 PROPS = {
+    "C01": {
+        "suites": PARSE_GROUPS,
+        "assumptions": COMMON_ASSUME + [
+            "for the list-of-errors readers 'accepted' means: no error other than the documented trailing-data warning",
+            "ElGamal/DSA key-value checks of go-i2p/crypto are approximated in the model (clearly valid / clearly invalid keys are generated)",
+        ],
+        "trusted_base": [MODEL_FILES],
+    },
+    "C03": {
+        "suites": PARSE_GROUPS,
+        "assumptions": COMMON_ASSUME + ["ReadLeaseSet returns no remainder and ignores trailing bytes: outside the letter of C03, only its C01 extent is judged"],
+        "trusted_base": [MODEL_FILES],
+    },
+    "C04": {
+        "suites": PARSE_GROUPS + ",C13,C17,LOOKUPS",
+        "assumptions": COMMON_ASSUME + [
+            "running time is enforced by a per-call deadline in the harness (2 s + 1 ms per input character), not proved",
+        ],
+        "trusted_base": [MODEL_FILES, "checked-slice layer lean/I2P/Checked.lean refines the pure model (Props/C04.lean)"],
+    },
+    "C05": {
+        "suites": "STRUCT",
+        "assumptions": COMMON_ASSUME + [
+            "signature unforgeability is computational and not a theorem; the data-flow statement (which key, which bytes, which prefix) is what is checked",
+            "independent verification uses the Go standard library (Ed25519, ECDSA) and go-i2p/crypto (DSA), both outside /repo",
+        ],
+        "trusted_base": [MODEL_FILES],
+    },
+    "C07": {
+        "suites": "KAC,IDENT,STRUCT",
+        "assumptions": COMMON_ASSUME + ["SHA-256 is a parameter of the model (its value is carried on the op line, computed by crypto/sha256)",
+                                        "collision resistance is not assumed by any theorem"],
+        "trusted_base": ["model files: lean/I2P/Kac.lean, Identity.lean, Base.lean"],
+    },
+    "C08": {
+        "suites": "KAC,STRUCT",
+        "assumptions": COMMON_ASSUME + ["aliasing is a property of Go memory, not of byte values: it is decided by the scribble oracle on the real library; the model states which fields are copies"],
+        "trusted_base": [MODEL_FILES],
+    },
+    "C09": {
+        "suites": "KAC,STRUCT",
+        "gen": True,
+        "assumptions": COMMON_ASSUME,
+        "trusted_base": [MODEL_FILES, "translator /verif/extract and the exhaustive sweep `harness observe` (Gen/*.lean)"],
+    },
+    "C10": {
+        "suites": "KAC,LOOKUPS",
+        "gen": True,
+        "assumptions": COMMON_ASSUME,
+        "trusted_base": ["model files: lean/I2P/Tables.lean, Kac.lean", "translator /verif/extract and the exhaustive sweep `harness observe` (Gen/*.lean)"],
+    },
     "C11": {
-        "suites": "C11",
+        "suites": "MAP",
         "assumptions": COMMON_ASSUME + [
             "Go map iteration order is modelled as an arbitrary permutation of the association list",
             "sort.SliceStable is modelled by List.mergeSort (stable); validated differentially",
@@ -15,7 +69,7 @@ PROPS = {
         "trusted_base": ["model files: lean/I2P/Data.lean, lean/I2P/Mapping.lean"],
     },
     "C12": {
-        "suites": "C12",
+        "suites": "DATA",
         "assumptions": COMMON_ASSUME + [
             "time.Unix/UnixMilli are modelled as exact integer arithmetic with int64 wrap-around; validated differentially",
         ],
@@ -38,5 +92,19 @@ PROPS = {
             "at least 3 s away from the clock reading, where the outcome depends on the offset only",
         ],
         "trusted_base": ["model files: lean/I2P/Data.lean, lean/I2P/Time.lean"],
+    },
+    "C17": {
+        "suites": "C17",
+        "assumptions": COMMON_ASSUME + [
+            "net.ParseIP, strconv.Atoi and strconv.Itoa are modelled in Lean (I2P/NetAddr.lean) and validated differentially against the standard library on every run",
+            "net.ResolveIPAddr on an IP literal performs no lookup and returns that literal",
+            "'decimal port' is read as: what strconv.Atoi accepts with value in 1..65535 ('+80' and '0080' are accepted and canonicalised to '80')",
+        ],
+        "trusted_base": ["model files: lean/I2P/NetAddr.lean, lean/I2P/RouterAddrAcc.lean, lean/I2P/Mapping.lean, lean/I2P/Data.lean"],
+    },
+    "C19": {
+        "suites": PARSE_GROUPS + ",C13,C17",
+        "assumptions": COMMON_ASSUME,
+        "trusted_base": [MODEL_FILES],
     },
 }
